@@ -1071,6 +1071,11 @@ func (x *runner) opForward() {
 	}
 	req := append([]byte{code}, g.bytesN(g.size())...)
 	resp := g.bytesN(g.size())
+	if g.r.Intn(3) == 0 {
+		// replies that look like the agent protocol's own status messages (failure 5, success 6, extension
+		// failure 28, ...) or like the server's texts are still the raw reply of a raw request
+		resp = core.Pick(g.r, []byte{5}, []byte{6}, []byte{5, 0}, []byte{30}, []byte{28}, []byte{0}, []byte("SUCCESS"), []byte("agent: failure"), []byte{5, 5}, []byte{12, 0, 0, 0, 0})
+	}
 	x.fake.arm(script{resp: resp})
 	var got []byte
 	var err error
